@@ -86,8 +86,9 @@ def shape(kind, vname=None):
 class Case:
     """one program: a type, the variant under test, and a label"""
 
-    def __init__(self, key, derive, kind, attr, enum=False, note=""):
+    def __init__(self, key, derive, kind, attr, enum=False, note="", shared=None):
         self.key, self.derive, self.kind, self.attr, self.enum, self.note = key, derive, kind, attr, enum, note
+        self.shared = shared       # enum-level attribute (without `_variant`): only a default for variants without their own
 
 
 def ph_with(arg, ty, mod=None):
@@ -107,11 +108,11 @@ def is_ptr_bare_field_arg(ty, args):
 def cases(tier, seed):
     out, seen = [], set()
 
-    def add(key, derive, kind, attr, enum=False, note=""):
+    def add(key, derive, kind, attr, enum=False, note="", shared=None):
         if key in seen:
             return
         seen.add(key)
-        out.append(Case(key, derive, kind, attr, enum, note))
+        out.append(Case(key, derive, kind, attr, enum or shared is not None, note, shared))
 
     rot = itertools.cycle(DISPLAY_LIKE)        # the derived trait rotates through the 8 Display-like derives
 
@@ -187,6 +188,19 @@ def cases(tier, seed):
     add("variant_ctx_textafter", "Octal", "t1", Attr([PH("_0"), "!"]), enum=True)
     add("variant_noattr_disp_t1", "Display", "t1", None, enum=True)
     add("variant_noattr_uhex_n1", "UpperHex", "n1", None, enum=True)
+    # H. enum with a top-level format that does NOT mention `_variant` (only a default): a variant's own attribute is "the attribute" of
+    #    that variant (seed C05_r2_2: own bare placeholders stopped delegating); a variant without attribute takes the top-level one
+    add("shared_dflt_text_own_bare_fieldname", "Display", "t1", Attr([PH("_0")]), shared=Attr(["shared text"]))
+    add("shared_dflt_field_own_bare_lhex", "Display", "t1", Attr([PH("_0", ty="x")]), shared=Attr([PH("_0")]))
+    add("shared_dflt_fieldtext_own_bare_imp_deref", "Display", "t1", Attr([PH(None)], ["*_0"]), shared=Attr(["sh ", PH("_0")]))
+    add("shared_dflt_text_own_bare_alias_lexp", "UpperHex", "n1", Attr([PH("q", ty="e")], [Arg("name.twin()", "q")]), shared=Attr(["shared"]))
+    add("shared_dflt_text_own_bare_oct_lhexderive", "LowerHex", "t1", Attr([PH(0, ty="o")], ["_0"]), shared=Attr(["s", PH("_0", ty="x")]))
+    add("shared_dflt_text_own_mod_width", "Display", "t1", Attr([PH("_0", width=4)]), shared=Attr(["shared text"]))        # inert
+    add("shared_dflt_text_own_ctx_text", "Display", "t1", Attr(["v ", PH("_0")]), shared=Attr([PH("_0")]))               # inert
+    add("shared_dflt_bare_lhex_noattr_variant", "Display", "t1", None, shared=Attr([PH("_0", ty="x")]))                    # transparent via the default
+    add("shared_dflt_bare_named_noattr_variant", "Binary", "n1", None, shared=Attr([PH("name", ty="b")]))
+    add("shared_dflt_fieldtext_noattr_variant", "Display", "t1", None, shared=Attr(["sh ", PH("_0")]))                     # inert
+    add("shared_dflt_mod_noattr_variant", "Display", "t1", None, shared=Attr([PH("_0", sign="+")]))                        # inert
     if tier == "thorough":
         # the wider product: every trait x every reference form x (no modifier | each modifier), context none;
         # a seeded sample of trait x reference x context x modifier beyond that
@@ -224,10 +238,13 @@ def build(case, with_contract=False, with_control=False):
     v.attr = case.attr
     if case.enum:
         other = Variant("Other", [None], attr=Attr(["other ", PH("_0")]) if case.derive != "Debug" else None)
-        td = TypeDef(case.derive, [other, v], is_enum=True)
+        td = TypeDef(case.derive, [other, v], is_enum=True, shared=case.shared)
     else:
         td = TypeDef(case.derive, v)
-    tr = transparent(td, v, case.attr)
+    # the attribute that governs the variant: its own one, else the enum-level default (never one that mentions `_variant` here)
+    eff = case.attr or case.shared
+    assert case.shared is None or "_variant" not in case.shared.lit.names()
+    tr = transparent(td, v, eff)
     items = []
     if tr:
         trait, expr = tr
@@ -241,7 +258,7 @@ def build(case, with_contract=False, with_control=False):
     items.append("/// Post-condition of `<T as fmt::%s>::fmt(v, formatter(o))`, from the property statement. %s\n"
                  "pub fn post_fmt(v: &T, o: FormattingOptions, out: &(Sink, bool)) -> bool {\n    %s\n}\n" % (td.derive, what, post))
     # covers: non-default options reach the call and output is produced
-    minlen = (case.attr.lit.text_len() if case.attr else 0) + (REC if tr else 0)
+    minlen = (eff.lit.text_len() if eff else 0) + (REC if tr else 0)
     covers = [("o.get_width().is_some() && o.get_fill() != ' ' && o.get_alternate() && out.1 && !out.0.overflow && out.0.len >= %d" % minlen,
                "non-default options, output produced"),
               ("o == FormattingOptions::new()", "default options")]
